@@ -23,7 +23,7 @@ ENGINE = {'name': 'socks5',
          'byte position or with one bit flipped before the address type. The script is served in one piece, byte by byte or in random pieces, '
          'then EOF. Every configuration also gets UDP ASSOCIATE announcing 0.0.0.0:0, [::]:0 and the name "0.0.0.0". After a successful UDP ASSOCIATE that announced a loopback or unspecified address (literal of either family, IPv4-mapped, or through a name), three datagrams are sent to the '
          'relay port (from another address of this machine standing for a third party, from the client address with an arbitrary port, and '
-         'last a sentinel from exactly the announced address) and a loopback UDP recorder tells which were forwarded. The client connection reports 127.0.0.1:40000 (*net.TCPAddr) except in a block of sessions (three configurations x UDP ASSOCIATE announcing 0.0.0.0 / :: / the name "0.0.0.0" / an explicit address, plus one CONNECT) run for eight other reported addresses: link-local IPv6 with and without zone, IPv4-mapped loopback, global IPv6, a TCPAddr without IP, an unspecified TCPAddr, and two net.Addr values that are not TCPAddr ("127.0.0.1:40000", "[fe80::1%eth0]:40000"); when the source a correct relay accepts is not an address of this machine the probe waits 150 ms and expects nothing to be forwarded. For every credential map, the bytes of each configured user name + password are re-split at every other boundary (incl. empty user / empty password) and names / passwords of two pairs are glued or swapped, each followed by CONNECT. Three configurations get UDP ASSOCIATE with every class of announced endpoint (0.0.0.0:0, 0.0.0.0:p, [::]:0, [::]:p, [::ffff:0.0.0.0]:p, empty name with port 0 / p, the names "0.0.0.0" and "::" with p, 127.0.0.1:0, 127.0.0.1:p, localhost:p, [::1]:p, foreign 10.1.2.3 with port 0 / p), each followed by datagrams from another interface address, from 127.0.0.2 (arbitrary port and the announced port), from the client address with an arbitrary port, and the sentinel: a datagram from an address that never authenticated must not be relayed unless the client announced exactly that address. White-box: associateSourceRewriter.Rewrite is called for every reported address x command 1..4 x ten announced IPs x announced port 0 / 4242 (CPin cases; oracle C16:auth:udp-relay-not-pinned-to-client). Scripts whose request would make the library contact anything but the loopback targets are not run. non-trivial = the client '
+         'last a sentinel from exactly the announced address) and a loopback UDP recorder tells which were forwarded. The client connection reports 127.0.0.1:40000 (*net.TCPAddr) except in a block of sessions (three configurations x UDP ASSOCIATE announcing 0.0.0.0 / :: / the name "0.0.0.0" / an explicit address, plus one CONNECT) run for eight other reported addresses: link-local IPv6 with and without zone, IPv4-mapped loopback, global IPv6, a TCPAddr without IP, an unspecified TCPAddr, and two net.Addr values that are not TCPAddr ("127.0.0.1:40000", "[fe80::1%eth0]:40000"); when the source a correct relay accepts is not an address of this machine the probe waits 150 ms and expects nothing to be forwarded. For every credential map, the bytes of each configured user name + password are re-split at every other boundary (incl. empty user / empty password) and names / passwords of two pairs are glued or swapped, each followed by CONNECT. Three configurations get UDP ASSOCIATE with every class of announced endpoint (0.0.0.0:0, 0.0.0.0:p, [::]:0, [::]:p, [::ffff:0.0.0.0]:p, empty name with port 0 / p, the names "0.0.0.0" and "::" with p, 127.0.0.1:0, 127.0.0.1:p, localhost:p, [::1]:p, foreign 10.1.2.3 with port 0 / p), each followed by datagrams from another interface address, from 127.0.0.2 (arbitrary port and the announced port), from the client address with an arbitrary port, and the sentinel: a datagram from an address that never authenticated must not be relayed unless the client announced exactly that address. and near misses of each configured name and password are presented (trailing / leading NULs, trailing space or newline, one byte shorter / longer, case flipped, last bit or high bit changed, empty, all-NUL of the same length / 1 / 255, padded to 255 bytes with NUL / space / 0xff, doubled): authenticated iff the pair is byte for byte a configured one. White-box: associateSourceRewriter.Rewrite is called for every reported address x command 1..4 x ten announced IPs x announced port 0 / 4242 (CPin cases; oracle C16:auth:udp-relay-not-pinned-to-client). Scripts whose request would make the library contact anything but the loopback targets are not run. non-trivial = the client '
          'got past method negotiation (server wrote more than a bare refusal); distinct = distinct (configuration, script, observation) terms',
  'trusted_base': ['the in-memory client connection of the harness (serves the script, then EOF after the handler went idle) and its loopback '
                   'TCP targets on 127.0.0.1/[::1] (connections are read to EOF one after the other; a fence connection after each session '
